@@ -119,6 +119,12 @@ class Env:
         self.callback = par_callbacks.process_item
         syncctx.install(helpers)
         self.shm_names = record_shm_creations()
+        # every sketch __del__ and every _merge_worker calls gc.collect(); with the package loaded a
+        # full collection costs 0.15 s.  Moving what exists now to the permanent generation makes
+        # those calls cheap; it changes no behaviour of the code under test.
+        import gc
+        gc.collect()
+        gc.freeze()
 
     def close(self):
         self.syncctx.uninstall(self.helpers)
@@ -372,6 +378,7 @@ def run_parallel_add(env, combo, cfg, items, plan, universe):
             if len(outs) == len(combo):
                 for kind, o in zip(combo, outs):
                     res["final"][kind] = snap(np, kind, o, universe)
+                    del o
             del outs, out
     ev = ctx.events
     res["codes"] = [p.exitcode for p in ctx.processes if getattr(p.target, "__name__", "") == "_worker"]
@@ -386,13 +393,29 @@ def run_parallel_add(env, combo, cfg, items, plan, universe):
     res["items_put"] = len(getattr(wq, "items", []))
     res["pills_put"] = sum(1 for e in ev if e[0] == "put" and e[1] == "work" and e[2] is None)
     res["kills"] = [e[1] for e in ev if e[0] == "kill"]
+    res["fill_error"] = [p.error for p in ctx.processes if getattr(p.target, "__name__", "") == "_fill_queue" and p.error]
     return res
 
 
-def run_pool(fn, cases, threads):
+def run_pool(fn, cases, threads, chunk=256):
+    """Run fn over the cases in a thread pool (only the sleeps overlap: the GIL serialises the rest).
+    Every sketch __del__ and every _merge_worker calls gc.collect(), whose cost grows with the number
+    of live container objects: so the case list is frozen out of the collector's reach, cases are
+    submitted in chunks, and results are kept pickled until they are consumed."""
+    import gc
+    import pickle
     from concurrent.futures import ThreadPoolExecutor
+
+    def packed(c):
+        return pickle.dumps(fn(c))
+    gc.collect()
+    gc.freeze()
+    blobs = []
     with ThreadPoolExecutor(max_workers=threads) as ex:
-        return list(ex.map(fn, cases))
+        for i in range(0, len(cases), chunk):
+            blobs += list(ex.map(packed, cases[i:i + chunk]))
+    for b in blobs:
+        yield pickle.loads(b)
 
 
 # ----------------------------------------------------------------------------- Coq printers
@@ -456,6 +479,289 @@ def coq_mon_case(n, kinds, polls, raised, closed, nmerge):
 IMPORTS = "Machine Harness Hll CmsLinear CmsLinearHarness Merging"
 
 
+# ----------------------------------------------------------------------------- the suite shared by C08 and C19
+THREADS = 32
+CLASSNAME = {"cms": "CountMinLinear", "hh": "HeavyHitters", "hll": "HyperLogLog"}
+
+
+class Suite:
+    def __init__(self, ctx, env, cfg, universe, bm):
+        self.ctx, self.env, self.cfg, self.universe, self.bm = ctx, env, cfg, universe, bm
+        self.nviol = 0
+        self.cms_cases, self.hll_cases, self.shape_cases, self.mon_cases = [], [], {}, []
+        self.meta = {"cms": [], "hll": [], "mon": []}
+        self.n_sched = 0
+        self.todo = []
+        self.sampled = set()
+
+    def violation(self, replay, what):
+        self.nviol += 1
+        if self.nviol <= 4:
+            self.ctx.violation(replay, what)
+
+    def check_result(self, items, res, suite):
+        """everything that is checked on one in-process schedule run"""
+        ctx = self.ctx
+        sched, combo = res["sched"], tuple(res["combo"])
+        n = len(sched)
+        self.n_sched += 1
+        rep = {"suite": suite, "items": items_to_json(items), "schedule": sched, "combo": list(combo), "cfg": self.cfg}
+        ctx.case_seen((suite, combo, repr(items), repr(sched)), n >= 2)
+        ctx.count("n_workers=%d" % n)
+        ctx.count("combo=" + "+".join(combo))
+        ctx.count("idle_workers=%d" % sum(1 for w in sched if not w))
+        n_faults = sum(1 for it in items if it[3] in ("before", "after"))
+        ctx.count("faulted_items=%d" % n_faults)
+        if res["errors"] or any(c != 0 for c in res["exitcodes"]) or len(res["log_errors"]) != n_faults:
+            # a raising callback is caught and logged once per faulted item; nothing else may go wrong
+            self.violation(dict(rep, errors=res["errors"], exitcodes=res["exitcodes"], logged=res["log_errors"]),
+                           "worker or merge failed, or callback faults were not caught and logged one by one")
+            return
+        for w, left in enumerate(res["queue_left"]):
+            if left != [("sentinel-after-pill", w)]:
+                self.violation(dict(rep, worker=w, queue_left=repr(left)),
+                               "_worker did not consume exactly its items and one pill")
+                return
+        for kind in combo:
+            fin = res["final"].get(kind)
+            if fin is None:
+                self.violation(dict(rep, kind=kind), "parallel_merging returned nothing")
+                return
+            # merge order: every worker sketch used exactly once, in the model's tree
+            if res["n_trees_left"][kind] != 1 or res["tree"][kind] != py_tree(n):
+                self.violation(dict(rep, kind=kind, observed_tree=repr(res["tree"][kind]), expected=repr(py_tree(n)),
+                                    unmerged=res["n_trees_left"][kind] - 1),
+                               "parallel_merging did not merge every worker sketch exactly once in pairwise rounds")
+                return
+            self.shape_cases[(n, repr(res["tree"][kind]), res["rounds"][kind], tuple(res["per_round"][kind]))] = res["tree"][kind]
+            bad = None
+            if not suite.startswith("Q-"):     # Q- suites: outside the property's hypotheses, model comparison only
+                bad = predicate(kind, fin, items, self.universe, bm=self.bm, depth=self.cfg["cms"]["depth"],
+                                seq=res["seq"][kind])
+            if bad:
+                self.violation(dict(rep, kind=kind, failed=bad, result={k: repr(v) for k, v in fin.items()}),
+                               ctx.pid + " predicate: " + bad["clause"])
+                return
+            if kind != "hll" and not suite.startswith("Q-"):
+                # n_records is added once per worker, at its pill
+                for w, ws in enumerate(res["workers"][kind]):
+                    exp = sum(ok_ret(items[i]) for i in sched[w])
+                    if ws["n_records"] != exp:
+                        self.violation(dict(rep, kind=kind, worker=w, n_records=ws["n_records"], expected=exp),
+                                       "worker sketch n_records != sum of the callback returns of its successful items")
+                        return
+        if n >= 2 and suite not in self.sampled:
+            self.sampled.add(suite)
+            ctx.sample({"suite": suite, "combo": list(combo), "items": items_to_json(items), "schedule": sched,
+                        "merge_tree": repr(res["tree"][combo[0]]), "mergers_per_round": res["per_round"][combo[0]],
+                        "result": {k: {f: v for f, v in res["final"][k].items() if f in ("tab", "n_added", "n_records")}
+                                   for k in combo if k != "hll"},
+                        "logged_faults": len(res["log_errors"])})
+        if "cms" in combo:
+            self.cms_cases.append("(" + coq_cms_case(self.cfg, self.bm, items, sched, res["workers"]["cms"],
+                                                        res["final"]["cms"]) + " : cms_case)")
+            self.meta["cms"].append(rep)
+        if "hll" in combo:
+            self.hll_cases.append("(" + coq_hll_case(self.cfg, items, sched, res["final"]["hll"]) + " : hll_case)")
+            self.meta["hll"].append(rep)
+
+    def add(self, items, scheds, combo, suite):
+        self.todo += [("sched", suite, items, tuple(combo), s) for s in scheds]
+
+    def add_whole(self, items, combo, plan):
+        self.todo.append(("whole", "S4-whole", items, tuple(combo), plan))
+
+    def run_all(self):
+        """one thread pool over all cases: the sleep-bound ones overlap with the rest"""
+        env, cfg, uni = self.env, self.cfg, self.universe
+
+        def one(c):
+            kind, suite, items, combo, s = c
+            if kind == "whole":
+                return run_parallel_add(env, combo, cfg, items, s, uni)
+            return run_schedule(env, combo, cfg, items, s, uni)
+        t = time.time()
+        for c, res in zip(self.todo, run_pool(one, self.todo, THREADS)):
+            if self.nviol > 4:
+                break
+            if c[0] == "whole":
+                self.check_whole(c[2], res)
+            else:
+                self.check_result(c[2], res, c[1])
+        self.ctx.tick(f"{len(self.todo)} in-process cases in {time.time() - t:.1f}s")
+
+    def check_whole(self, items, res):
+        """one whole in-process parallel_add"""
+        ctx = self.ctx
+        combo, plan = tuple(res["combo"]), res["plan"]
+        n = len(plan)
+        rep = {"suite": "whole-parallel_add", "items": items_to_json(items), "schedule": plan, "combo": list(combo),
+               "cfg": self.cfg}
+        ctx.case_seen(("whole", combo, repr(items), repr(plan)), n >= 2)
+        ctx.count("whole_parallel_add n_workers=%d" % n)
+        dies = [it[0] for it in items if it[3] == "die"]
+        if dies:
+            # a worker "process" died: parallel_add must end with an exception, both queues closed and
+            # everybody killed BEFORE any merger is started
+            ctx.count("whole_parallel_add dead_worker")
+            dead = [c for c in res["codes"] if c not in (0, None)]
+            if not res["raised"]:
+                self.violation(dict(rep, codes=res["codes"]), "a worker died and parallel_add returned a result")
+                return
+            if not dead or res["n_merge_started"] or not res["queues_closed"] or not res["close_before_merge"] \
+                    or res["kills"].count("_worker") < n or "_log_worker" not in res["kills"]:
+                self.violation(dict(rep, codes=res["codes"], mergers=res["n_merge_started"], kills=res["kills"],
+                                    queues_closed=res["queues_closed"], raised=res["raised"]),
+                               "abort path: not (kill workers and logger, close both queues, raise before any merge)")
+                return
+            self.mon_cases.append("(" + coq_mon_case(n, combo, [(res["codes"], False)], True, True, 0) + " : mon_case)")
+            self.meta["mon"].append(dict(rep, codes=res["codes"]))
+            return
+        if res["raised"]:
+            self.violation(dict(rep, raised=res["raised"]), "parallel_add raised although no worker died")
+            return
+        if res.get("returned_types") != [CLASSNAME[k] for k in combo]:
+            self.violation(dict(rep, returned=res.get("returned_types")),
+                           "parallel_add did not return the requested sketches in the order cms, hh, hll")
+            return
+        served = sorted(p for _, p in res["served"])
+        if res["items_put"] != len(items) or res["pills_put"] != n or served != list(range(len(items))):
+            self.violation(dict(rep, items_put=res["items_put"], pills_put=res["pills_put"], served=res["served"]),
+                           "_fill_queue did not put every item once and one pill per worker")
+            return
+        if res["n_merge_started"] != (n - 1) * len(combo) or res["kills"] or res["queues_closed"]:
+            self.violation(dict(rep, mergers=res["n_merge_started"], kills=res["kills"]),
+                           "fault-free parallel_add started the wrong number of mergers or killed/closed something")
+            return
+        for kind in combo:
+            seq = sequential(self.env, kind, self.cfg, items, self.universe)
+            bad = predicate(kind, res["final"][kind], items, self.universe, bm=self.bm,
+                               depth=self.cfg["cms"]["depth"], seq=seq)
+            if bad:
+                self.violation(dict(rep, kind=kind, failed=bad), ctx.pid + " predicate (whole parallel_add): " + bad["clause"])
+                return
+        self.mon_cases.append("(" + coq_mon_case(n, combo, [(res["codes"], False)], False, False, len(combo)) + " : mon_case)")
+        self.meta["mon"].append(rep)
+        if res.get("fill_error"):
+            note = f"observation (not a finding): with {len(items)} items the _fill_queue process ended with {res['fill_error'][0]} " \
+                   "after placing the pills; parallel_add does not look at its exit code and the result is still correct"
+            if note not in ctx.notes:
+                ctx.notes.append(note)
+
+    def run_model(self):
+        """the same cases inside Coq (Merging.v); a difference is a broken correspondence"""
+        ctx = self.ctx
+        shape_cases = []
+        for (n, _, rounds, per_round), tree in self.shape_cases.items():
+            shape_cases.append(f"({n}, {coq_tree(tree)}, {rounds}, [" + "; ".join(str(x) for x in per_round) + "])")
+        for tag, chk, cases, shard in (("shape", "check_shape", shape_cases, 50), ("cms", "check_cms_case", self.cms_cases, 130),
+                                       ("hll", "check_hll_case", self.hll_cases, 60), ("mon", "check_mon_case", self.mon_cases, 60)):
+            bad, err = ctx.coq_bad_cases(tag, IMPORTS, chk, cases, shard=shard)
+            if err:
+                ctx.broken.append(f"correspondence merge-tree ({tag}) could not be evaluated: {err}")
+            if bad:
+                i = sorted(bad)[0]
+                rep = self.meta[tag][i] if tag in self.meta else {"case": cases[i]}
+                show = ""
+                if tag == "shape":
+                    show = ctx.coq_show("shape", IMPORTS, f"pm_shape {shape_cases[i].split(',')[0][1:]}")[:300]
+                ctx.broken.append(f"correspondence merge-tree ({tag}): model and implementation differ on {len(bad)} of "
+                                  f"{len(cases)} cases, first: {json.dumps(rep, default=repr)[:600]} {show}")
+            ctx.cov["model_cases_%s" % tag] = len(cases)
+        ctx.tick("model evaluated in Coq")
+
+    def run_model_real(self, real_items, real_cases):
+        """the model on the schedules the real spawned runs actually had (returned sketches only)"""
+        import cms_common
+        ctx, cfg = self.ctx, self.cfg
+        cc = [f"(({cfg['cms']['width']}%nat, {cfg['cms']['depth']}%nat, {cms_common.coq_bmap(self.bm)}, "
+              f"{coq_outs(items, 'cms')}, {coq_sched(s)}, {coq_expect_cms(f)}) : real_cms_case)"
+              for items, s, f in real_cases["cms"]]
+        hc = ["(" + coq_hll_case(cfg, items, s, f) + " : hll_case)" for items, s, f in real_cases["hll"]]
+        for tag, chk, cases in (("realcms", "check_real_cms_case", cc), ("realhll", "check_hll_case", hc)):
+            bad, err = ctx.coq_bad_cases(tag, IMPORTS, chk, cases, shard=10)
+            if err:
+                ctx.broken.append(f"correspondence merge-tree ({tag}) could not be evaluated: {err}")
+            if bad:
+                ctx.broken.append(f"correspondence merge-tree ({tag}): the model evaluated on the schedule observed in the real "
+                                  f"spawned run differs from the returned sketch ({len(bad)} of {len(cases)})")
+        ctx.cov["model_cases_real_runs"] = len(cc) + len(hc)
+
+
+def replay(ctx, path):
+    """--replay <file>: run the recorded case again on the current implementation"""
+    rp = json.load(open(path))
+    cfg = rp.get("cfg", DEFAULT_CFG)
+    universe = list(KEYS)
+    ctx.cov["rule"] = "replay of one recorded case"
+    if "items" not in rp or "combo" not in rp:
+        ctx.notes.append("replay file holds no in-process case (theorem / correspondence / real-run record)")
+        if rp.get("suite", "").startswith("real") or rp.get("suite") == "F2-probe":
+            ctx.notes.append("real spawned runs are not replayed from a file: rerun the check, the same seed gives the same run")
+        return
+    env = Env(ctx)
+    bm = probe_buckets(env, cfg, universe)
+    S = Suite(ctx, env, cfg, universe, bm)
+    items = items_from_json(rp["items"])
+    if rp.get("suite", "").startswith("whole"):
+        S.add_whole(items, rp["combo"], rp["schedule"])
+    else:
+        S.add(items, [rp["schedule"]], rp["combo"], rp.get("suite", "replay"))
+    S.run_all()
+    S.run_model()
+    if not S.nviol and not ctx.broken:
+        ctx.notes.append(f"replay {path}: the recorded case passes on the current tree")
+    shm_cleanup(list(env.shm_names))
+    env.close()
+
+
+def eval_real(ctx, suite, r, spec, items, universe, cfg, bm, env):
+    """the real spawned run: must return, every item processed exactly once, results as the property says;
+    returns the observed schedule (for the model) or None"""
+    rep = {"suite": "real-spawned-run", "n_workers": spec["n_workers"], "items": spec["items"], "combo": spec["combo"],
+           "cfg": cfg, "outcome": {k: v for k, v in r.items() if k not in ("final", "trace")}}
+    if r.get("hung"):
+        suite.violation(rep, "real parallel_add did not return within the hard timeout")
+        return None
+    if r.get("broken"):
+        ctx.broken.append("real spawned run could not be evaluated: " + r["broken"])
+        return None
+    if r["raised"]:
+        suite.violation(rep, f"real parallel_add raised {r['raised']}: {r.get('message')}")
+        return None
+    combo = tuple(spec["combo"])
+    if r.get("returned_types") != [CLASSNAME[k] for k in combo]:
+        suite.violation(dict(rep, returned=r.get("returned_types")), "real parallel_add returned the wrong sketches")
+        return None
+    sched, n_active = observed_schedule(r["trace"], spec["n_workers"])
+    seen = sorted(i for w in sched for i in w)
+    if seen != list(range(len(items))) or len(sched) != spec["n_workers"]:
+        suite.violation(dict(rep, observed_schedule=sched), "an item was not processed exactly once (callback side channel)")
+        return None
+    if r["orphans"] or r["shm_left"]:
+        suite.violation(dict(rep, orphans=r["orphans"], shm_left=r["shm_left"]),
+                        "parallel_add left processes or shared-memory blocks behind")
+        return None
+    fin = {}
+    for kind in combo:
+        s = r["final"][kind]
+        if kind == "cms":
+            s = dict(s, q=[(bytes(k), v) for k, v in s["q"]])
+        elif kind == "hh":
+            s = dict(s, get=[(bytes(k), v) for k, v in s["get"]], query=[(bytes(k), v) for k, v in s["query"]])
+        fin[kind] = s
+        seq = sequential(env, kind, cfg, items, universe)
+        bad = predicate(kind, s, items, universe, bm=bm, depth=cfg["cms"]["depth"], seq=seq)
+        if bad:
+            suite.violation(dict(rep, kind=kind, failed=bad, observed_schedule=sched), ctx.pid + " predicate (real run): " + bad["clause"])
+            return None
+    ctx.count("real_runs_ok")
+    ctx.cov.setdefault("real_runs", []).append({"n_workers": spec["n_workers"], "wall_s": r["wall"], "call_s": r.get("call_s"),
+                                                "observed_schedule": sched, "workers_that_got_items": n_active})
+    return sched, fin
+
+
+
 # ----------------------------------------------------------------------------- layer 2: real runs
 def launch_real(ctx, tag, spec, timeout):
     """start `python par_common.py real spec out` in the background; returns a handle"""
@@ -473,6 +779,63 @@ def launch_real(ctx, tag, spec, timeout):
     p = subprocess.Popen([sys.executable, os.path.join(HERE, "par_common.py"), "real", spec_p, out_p],
                          stdout=log, stderr=subprocess.STDOUT, env=env, start_new_session=True)
     return {"tag": tag, "proc": p, "out": out_p, "spec": spec, "t0": time.time(), "timeout": timeout, "log": log}
+
+
+class RealRuns:
+    """at most `width` real spawned runs alive at a time; the next one starts as soon as one ends
+    (a daemon thread polls), so that the runs overlap with the in-process enumeration"""
+
+    def __init__(self, ctx, width=2):
+        import threading
+        self.ctx, self.width = ctx, width
+        self.waiting, self.running, self.done = [], [], []
+        self.lock = threading.Lock()
+        self.thread = None
+
+    def add(self, tag, spec, timeout):
+        with self.lock:
+            self.waiting.append((tag, spec, timeout))
+        self._pump()
+        if self.thread is None:
+            import threading
+            self.thread = threading.Thread(target=self._loop, daemon=True)
+            self.thread.start()
+
+    def _pump(self):
+        with self.lock:
+            for h in list(self.running):
+                if h["proc"].poll() is not None or time.time() - h["t0"] > h["timeout"]:
+                    self.running.remove(h)
+                    self.done.append(h)
+            while self.waiting and len(self.running) < self.width:
+                tag, spec, timeout = self.waiting.pop(0)
+                self.running.append(launch_real(self.ctx, tag, spec, timeout))
+
+    def _loop(self):
+        while True:
+            self._pump()
+            with self.lock:
+                if not self.waiting and not self.running:
+                    self.thread = None
+                    return
+            time.sleep(0.5)
+
+    def results(self):
+        """yield (tag, handle, result) in the order the runs were added, waiting for each"""
+        order = []
+        while True:
+            self._pump()
+            with self.lock:
+                allh = self.done + self.running
+                pending = len(self.waiting)
+            for h in allh:
+                if h["tag"] not in order and (h in self.done):
+                    order.append(h["tag"])
+                    yield h["tag"], h, collect_real(h)
+            with self.lock:
+                if not self.waiting and not self.running and len(order) == len(self.done):
+                    return
+            time.sleep(0.5)
 
 
 def collect_real(h):
@@ -557,6 +920,8 @@ def _real_main(spec_p, out_p):
     universe = [bytes(k) for k in spec["universe"]]
     args = {k + "_args": dict(cfg[k]) for k in combo}
     kwargs = {"trace_path": spec["trace_path"]}
+    if spec.get("delay"):
+        kwargs["delay"] = spec["delay"]
     if spec.get("die_on_kth"):
         kwargs.update(die_on_kth=spec["die_on_kth"], die_flag=spec["die_flag"])
     src = (it for it in items) if spec["mode"] == "f2" else list(items)
@@ -582,6 +947,7 @@ def _real_main(spec_p, out_p):
                     s["get"] = [[list(k), v] for k, v in s["get"]]
                     s["query"] = [[list(k), v] for k, v in s["query"]]
                 fin[kind] = s
+                del o
         out["final"] = fin
         del outs, result
     # whoever is still running was orphaned by the call (F2: the log process; abort path: nobody expected)
